@@ -246,6 +246,24 @@ CHECKS.update({
         "DESIGN.md section 3, C08"),
 })
 
+CHECKS.update({
+    "C07": (
+        "model_checking",
+        "exhaustive product exploration documents x expressions x option "
+        "vectors against a reference search; every reported path re-resolved "
+        "on the real engine",
+        "Every document (incl. all anchor/alias decorations of the base "
+        "documents, punctuation keys) x 9 operators x inversion x terms x "
+        "{values, keys+values, keys-only} x 4 alias-inclusion modes x expand "
+        "x 2 notations: the multiset of objects the reported paths resolve to "
+        "(each path queried in the notation it was printed in, must resolve "
+        "to exactly one object) equals the reference's matched sites - sound, "
+        "complete, no duplicates; expansion yields exactly the leaves.",
+        "value matching judged by refmatch; --refnames, EYAML decryption, "
+        "sets and YAML merge keys are not explored",
+        "DESIGN.md section 3, C07"),
+})
+
 NOT_YET = {
 }
 
